@@ -1020,6 +1020,14 @@ def gen_C10(g, tier):
                     if tier == "quick" and r.random() < 0.5 and a != b:
                         continue
                     lines.append(f"{c} kmer cmp {K} usize {a} {b}")
+        # k-mers decoded from integers order like the integers (every fitting K, incl. the K that fills the word)
+        for K in fitting_ks(w, 64, tier, r):
+            top = 1 << (K * w)
+            for _ in range(3 if tier == "quick" else 12):
+                a_, b_ = r.randrange(top), r.randrange(top)
+                lines.append(f"{c} kmer cmpint {K} usize {a_} {b_}")
+            lines.append(f"{c} kmer cmpint {K} usize {top - 1} {top // 2}")
+            lines.append(f"{c} kmer cmpint {K} usize 1 {top - 1}")
         for (st, sbits) in STORAGES:
             for K in fitting_ks(w, sbits, tier, r):
                 for _ in range(3 if tier == "quick" else 20):
@@ -1118,6 +1126,9 @@ def gen_C12(g, tier):
         lines.append(f"{c} show or {sa} {sb}")
         lines.append(f"{c} show bitand own {sa} own {sb}")
         lines.append(f"{c} show bitor own {sa} own {sb}")
+        # borrowed slice (any offset) with a borrowed OWNED sequence on the right: `slice & &seq`, `slice | &seq`
+        lines.append(f"{c} show andsv {sa} own {sb}")
+        lines.append(f"{c} show orsv {sa} p str {hx(tb)}")
         lines.append(f"{c} contains slice {sa} {sb}")
         lines.append(f"{c} contains seq {sa} {sb}")
         # length mismatches for contains (and for the operators: result keeps the left length)
@@ -1173,6 +1184,20 @@ def gen_C12(g, tier):
         lines.append(f"{c} show bitor p str {hx(ta)} frombits {ob} p str {hx(tb)}")
         lines.append(f"{c} show and frombits {oa} p str {hx(ta)} frombits {ob} p str {hx(tb)}")
         lines.append(f"{c} contains seq frombits {ob} p str {hx(ta)} p str {hx(tb)}")
+    # whole-word lengths for every operand-type combination
+    for n in (16, 32, 48):
+        ta, tb = g.text(c, n), g.text(c, n)
+        for lead in (0, 1, 15):
+            sa = offset_slice(g, c, ta, lead)
+            lines.append(f"{c} show andsv {sa} p str {hx(tb)}")
+            lines.append(f"{c} show orsv {sa} p str {hx(tb)}")
+            lines.append(f"{c} show and {sa} {offset_slice(g, c, tb, 1)}")
+            lines.append(f"{c} show or {sa} {offset_slice(g, c, tb, 1)}")
+    # static literals as operands: the compile-time encoder must produce the runtime codes for every IUPAC letter
+    for ch in chars:
+        lines.append(f"{c} macro {ch:02x}")
+    for _ in range(6 if tier == "quick" else 60):
+        lines.append(f"{c} macro {hx([r.choice(chars) for _ in range(r.randrange(1, 40))])}")
     for _ in range(10 if tier == "quick" else 200):
         n = r.randrange(0, 70)
         t = g.text("dna", n)
